@@ -87,7 +87,8 @@ fn field_line_ends(h: &RespHead, first_line_len: usize) -> Vec<usize> {
 }
 
 fn response_case(rng: &mut Rng, all: bool, rec: &mut Rec) {
-    let limit = *rng.pick(&LIMITS);
+    let lane = crate::core::lane_mode();
+    let limit = if lane { *rng.pick(&[0usize, 1, 4]) } else { *rng.pick(&LIMITS) };
     let nf = pick_nfields(rng, limit);
     let truth = gen_resp_head(rng, nf, false);
     let head = truth.render();
@@ -133,7 +134,12 @@ fn response_case(rng: &mut Rng, all: bool, rec: &mut Rec) {
     // prefixes
     let bounds = head_boundaries(&truth);
     let line_ends = field_line_ends(&truth, head.windows(2).position(|w| w == b"\r\n").unwrap() + 2);
-    for p in prefix_set(rng, hlen, &bounds, all) {
+    let mut pset = prefix_set(rng, hlen, &bounds, all);
+    if lane {
+        let step = (pset.len() / 16).max(1);
+        pset = pset.into_iter().step_by(step).collect();
+    }
+    for p in pset {
         rec.call();
         let r = full_resp(limit, &stream[..p]);
         rec.cov(&format!("response/N={}/fields-{}-limit/prefix/{}", limit, relation, truth.cut_class(&head, p)));
@@ -194,7 +200,8 @@ fn response_case(rng: &mut Rng, all: bool, rec: &mut Rec) {
 }
 
 fn request_case(rng: &mut Rng, all: bool, rec: &mut Rec) {
-    let limit = *rng.pick(&LIMITS);
+    let lane = crate::core::lane_mode();
+    let limit = if lane { *rng.pick(&[0usize, 1, 4]) } else { *rng.pick(&LIMITS) };
     let nf = pick_nfields(rng, limit);
     let method = *rng.pick(&METHODS);
     let target = *rng.pick(&["/", "/a/b?c=d", "*", "http://h.test/abs", "h.test:443", "/p%20q"]);
@@ -233,7 +240,12 @@ fn request_case(rng: &mut Rng, all: bool, rec: &mut Rec) {
     }
     let mut bounds: Vec<usize> = vec![method.len(), method.len() + 1, first - 10, first - 2, first - 1, first];
     bounds.extend(head_boundaries(&fields).iter().filter(|b| **b >= sl).map(|b| b - sl + first));
-    for p in prefix_set(rng, hlen, &bounds, all) {
+    let mut pset = prefix_set(rng, hlen, &bounds, all);
+    if lane {
+        let step = (pset.len() / 16).max(1);
+        pset = pset.into_iter().step_by(step).collect();
+    }
+    for p in pset {
         rec.call();
         let r = full_req(limit, &stream[..p]);
         rec.cov(&format!("request/N={}/prefix/{}", limit, if p < first { "in-request-line" } else { "in-fields" }));
